@@ -10,7 +10,39 @@ def finding_key(pid, rej):
     return hashlib.sha1(((rej.get("script") or "") + "|" + rej.get("world", "")).encode()).hexdigest()[:12]
 
 
-def run_plan(pid, tier, seed, plan):
+def run_composite(pid, tier, seed, plans):
+    """Several plans (different interpreters / trace specs) decide one property: run each, merge the evidence."""
+    t0 = time.time()
+    rc = 0
+    parts = []
+    for i, plan in enumerate(plans):
+        r = run_plan(pid, tier, seed, plan, evidence_name="%s.part%d" % (pid, i))
+        rc = max(rc, r)
+        ep = os.path.join(EVID, "%s.part%d.json" % (pid, i))
+        parts.append(json.load(open(ep)))
+        os.remove(ep)
+    cov = {"states": 0, "transitions": 0, "traces_validated_against_impl": 0, "evaluations": 0, "distinct_nontrivial": 0, "rule": "", "samples": [],
+           "exhaustive": True, "models": [], "worlds": [], "defect_sensitivity": [], "parts": []}
+    for e in parts:
+        c = e["coverage"]
+        for k in ("states", "transitions", "traces_validated_against_impl", "evaluations", "distinct_nontrivial"):
+            cov[k] += c.get(k, 0)
+        cov["rule"] += (" || " if cov["rule"] else "") + c["rule"]
+        cov["samples"] += c["samples"][:3]
+        cov["exhaustive"] = cov["exhaustive"] and c.get("exhaustive", False)
+        for k in ("models", "worlds", "defect_sensitivity"):
+            cov[k] += c.get(k, [])
+        cov["repo_include_hash"] = c.get("repo_include_hash")
+    assumptions = []
+    for e in parts:
+        for a in e.get("assumptions", []):
+            if a not in assumptions:
+                assumptions.append(a)
+    write_evidence(pid, tier, seed, parts[0]["level"], cov, time.time() - t0, sum(e.get("violations", 0) for e in parts), assumptions)
+    return rc
+
+
+def run_plan(pid, tier, seed, plan, evidence_name=None):
     """plan keys: level, models[], worlds[], interp, trace_module, rule, assumptions, defects[], reset_event"""
     t0 = time.time()
     wd = scratch(pid)
@@ -146,7 +178,10 @@ def run_plan(pid, tier, seed, plan):
                "exhaustive": all(w.get("fraction", 1.0) >= 1.0 for w in worlds[:1]) and all(m.get("role", "cover") != "simulate" for m in plan["models"][:1]),
                "models": model_notes, "worlds": world_notes, "defect_sensitivity": defect_notes, "interp_stats": stats,
                "repo_include_hash": repo_hash(), "further_rejections_not_individually_reported": extra_rejections}
-        write_evidence(pid, tier, seed, plan.get("level", "model_checking"), cov, time.time() - t0, violations, plan.get("assumptions", ()))
+        write_evidence(evidence_name or pid, tier, seed, plan.get("level", "model_checking"), cov, time.time() - t0, violations, plan.get("assumptions", ()))
+        if evidence_name:
+            ep = os.path.join(EVID, evidence_name + ".json")
+            e = json.load(open(ep)); e["property_id"] = pid; json.dump(e, open(ep, "w"), indent=1)
         return 1 if violations else 0
     finally:
         shutil.rmtree(wd, ignore_errors=True)
